@@ -54,7 +54,8 @@ def MsgEffect.apply (dir name : Bytes) (e : MsgEffect) (st : MainSt) : MainSt :=
       | some (some x) => (st.files.del dir name).put x.1 x.2.1 x.2.2
     error := st.error || e.error
     reject := st.reject || e.reject
-    log := st.log ++ e.lines }
+    log := st.log ++ e.lines
+    fuelOut := st.fuelOut }
 
 theorem MsgEffect.apply_noop (dir name : Bytes) (st : MainSt) : MsgEffect.noop.apply dir name st = st := by
   cases st
